@@ -206,6 +206,11 @@ func runFunction(vc *VC, u *Universe, pi *PkgInfo, fc *FuncContract, fn *ssa.Fun
 				found = true
 			}
 		}
+		if !found && cs.IsNever {
+			o := vc.oblige("callsite."+tag, TTrue, x.posOf(fn, fn.Pos()), fmt.Sprintf("the function never calls %s (no such call in its body)", cs.Callee))
+			o.Clause = cs.Clause.Src
+			continue
+		}
 		if !found {
 			o := vc.oblige("callsite."+tag, TFalse, x.posOf(fn, fn.Pos()), fmt.Sprintf("call-site assertion [%s] at %s was never evaluated: the call is gone, unreachable for the engine, or the assertion no longer resolves there: %s", tag, cs.Callee, cs.Clause.Src))
 			o.Clause = cs.Clause.Src
